@@ -24,6 +24,8 @@ func init() {
 			ruleByteAtGuards(c, r, "")
 			ruleCtorReopen(c, r, "")
 			ruleNilDecoder(c, r, "")
+			ruleRingModulus(c, r, "", "enc")
+			ruleRawVsCompressed(c, r, "")
 			ruleChunkLimits(c, r, "")
 			ruleWriter2(c, r, t, "")
 			r.Floor("SEQ-STARTCHUNK", 7)
